@@ -414,12 +414,14 @@ Definition stmt_reserved (clear_rule : bool) (cache0 : list N) (ts : list ty) (v
   let (s, c) := args_size clear_rule cache0 ts vs in
   (HEADER_SIZE + s + (match dyn with Some _ => 1 | None => 0 end), c).
 
+Definition dyn_bytes (dyn : option N) : list byte := match dyn with Some l => [l] | None => [] end.
+
 (* what log_statement writes at address base *)
 Definition stmt_encode (h : header) (ts : list ty) (vs : list val) (dyn : option N) (base : N) (cache : list N)
   : option (list byte) :=
   match args_encode ts vs (base + HEADER_SIZE) cache with
   | None => None
-  | Some (bs, _) => Some (enc_header h ++ bs ++ (match dyn with Some l => [l] | None => [] end))
+  | Some (bs, _) => Some (enc_header h ++ bs ++ dyn_bytes dyn)
   end.
 
 (* what the backend reads at address base; is_dyn = (macro_metadata->log_level() == Dynamic) *)
